@@ -4,6 +4,10 @@ use crate::report::{Report, Tier};
 pub mod common;
 pub mod c01;
 pub mod c02;
+pub mod c03;
+pub mod c05;
+pub mod c19;
+pub mod mfamily;
 pub mod c04;
 pub mod c06;
 pub mod c07;
@@ -37,6 +41,9 @@ macro_rules! props {
 props! {
     "C01" => c01,
     "C02" => c02,
+    "C03" => c03,
+    "C05" => c05,
+    "C19" => c19,
     "C04" => c04,
     "C06" => c06,
     "C07" => c07,
@@ -50,8 +57,15 @@ props! {
     "C12" => c12,
 }
 
-/// Entry point for isolated child processes (`cvmc child <ID> ...`).
-pub fn child(_args: &[String]) -> i32 {
-    eprintln!("no child handlers yet");
-    2
+/// Entry point for isolated child processes (`cvmc child <ID> <part> <from> <to>`).
+pub fn child(args: &[String]) -> i32 {
+    if args.len() != 4 {
+        eprintln!("usage: cvmc child <ID> <part> <from> <to>");
+        return 2;
+    }
+    let (from, to): (u64, u64) = (args[2].parse().unwrap(), args[3].parse().unwrap());
+    match args[0].as_str() {
+        "C03" | "C05" | "C19" => mfamily::child(&args[0], &args[1], from, to),
+        other => { eprintln!("no child handler for {other}"); 2 }
+    }
 }
